@@ -1677,3 +1677,21 @@ _scratch = contextvars.ContextVar("jaxtyping_scratch", default=[])
 _shape_storage = threading.local()"""), (S, """def pop_shape_memo() -> None:
     _shape_storage.memo_stack.pop()""", """def pop_shape_memo() -> None:
     _scratch.get().append(_shape_storage.memo_stack.pop())""")], "C06")
+
+
+# ------------------------------------------------------------------------- wave 5
+SEEDS["C14_comma_check_on_whole_string"] = ("C14", [(A, """    for index, elem in enumerate(dim_str.split()):
+        if "," in elem and "(" not in elem:
+            # Common mistake.
+            # Disable in the case that there's brackets to allow for function calls,
+            # e.g. `min(foo,bar)`, in symbolic axes.
+            raise ValueError("Axes should be separated with spaces, not commas")""", """    if "," in dim_str and "(" not in dim_str:
+        raise ValueError("Axes should be separated with spaces, not commas")
+    for index, elem in enumerate(dim_str.split()):""")], "C14.4")
+SEEDS["C20_transparency_flag_in_namespace"] = ("C20", [(A, """                _getitem_args=(x, orig_dim_str),""", """                _getitem_args=(x, orig_dim_str),
+                _skip_instancecheck=False,""")], "C20.6")
+SEEDS["C20_reducer_falls_back_to_merged_fields"] = ("C20", [(A, """        return x.dtype.__getitem__, (x._getitem_args,)""", """        item = getattr(x, "_getitem_args", None)
+        if item is None:
+            item = (x.array_type, x.dim_str)
+        return x.dtype.__getitem__, (item,)""")], "C20")
+SEEDS["C17_skip_leaves_seen_by_id"] = ("C17", SEEDS["C16_skip_already_seen_leaf_objects"][1], "C17.4")
